@@ -317,6 +317,11 @@ class C16(Prop):
             if val is not None:
                 tol = 1e-6 if case['fam'] in ('lp', 'milp') else 1e-4
                 if abs(val - direct) > tol * (1 + abs(direct)):
+                    if case['fam'] in ('soc', 'misoc'):
+                        from vf.props.c11 import ill_posed
+                        if ill_posed([('gurobi', True, True, direct, sol, f)], tol):
+                            return Outcome.inconclusive('the optimum of the compiled program moves by more than the comparison tolerance when rows and '
+                                                        'bounds are relaxed by 1e-6 (ill-posed program): the two Gurobi runs cannot be compared', labels + ['ill_posed'])
                     return Outcome.fail('solve_value:' + case['fam'], 'exported file solves to %.9g, the formula to %.9g' % (val, direct), labels)
                 labels.append('solved_both')
         return Outcome.ok(nt, labels)
